@@ -38,6 +38,26 @@ fn workload(rng: &mut Rng, file_size: u64) -> Vec<Op> {
     let mut ops: Vec<Op> = names.iter().map(|q| Op::Create { q: q.clone() }).collect();
     let mut next: BTreeMap<String, u64> = names.iter().map(|q| (q.clone(), 0u64)).collect();
     let mut first_kept: BTreeMap<String, u64> = names.iter().map(|q| (q.clone(), 0u64)).collect();
+    // one history in three opens with a batch whose first records fill the payload of its
+    // First frame EXACTLY (the creates are the only entries before it, so the cursor is known):
+    // an entry cut at that frame boundary still parses as a whole number of records
+    if rng.chance(1, 3) {
+        let q = rng.pick(&names).clone();
+        let cursor: usize = names.iter().map(|n| 7 + 11 + n.len()).sum();
+        if cursor + 7 + 11 + q.len() + 40 < BLOCK {
+            let room = BLOCK - cursor - 7 - 11 - q.len();
+            let k = *[1usize, 2, 3, 5, 10].iter().rev().find(|k| room % **k == 0 && room / **k >= 12 + 16).unwrap_or(&1);
+            if room / k >= 12 + 16 && room % k == 0 {
+                let mut lens = vec![room / k - 12; k];
+                for _ in 0..rng.usize(1, 4) {
+                    lens.push(rng.usize(16, 20_000));
+                }
+                let nrec = lens.len() as u64;
+                next.insert(q.clone(), nrec);
+                ops.push(Op::Append { q, pos: None, lens, chained: false });
+            }
+        }
+    }
     let n = rng.usize(4, 14);
     for _ in 0..n {
         let q = rng.pick(&names).clone();
@@ -287,10 +307,11 @@ impl Monitor for C12 {
             ("damage_on_len_or_type_byte", tier.pick(5_000, 100_000)),
             ("recoveries_with_one_failing_read", tier.pick(5_000, 100_000)),
             ("aimed_continuations_after_a_clean_cut_inside_a_batch", tier.pick(300, 6_000)),
+            ("second_restarts_after_a_crash_inside_a_batch", tier.pick(8_000, 150_000)),
         ]
     }
     fn rule(&self) -> String {
-        "case = one focused history (1..2 queues, 4..14 batch appends of 1..64 self-identifying records totalling 16 B .. 3 WAL files, plus frame-commensurate batches of 400..700 records of 169 bytes / 3..5 records of 32749 bytes (12+len divides the 32761-byte frame payload), interleaved truncations of the same queue and, one op in nine, delete_queue + create_queue of the same name so that later batches re-use positions of an earlier incarnation) under Always(Flush); crash leg: every file-system effect boundary and frame-relative byte cuts of every write; damage leg: every frame written by a batch x {payload bit, payload garbage, checksum, length byte, type byte, whole frame zero-filled, empty-frame chain}; evaluation = one recovery; oracle over batch boundaries known to the harness: each batch is recovered as nothing, everything, or a hole-free suffix ending at its last record whose missing head is at or below a truncate position issued on that queue; continuation leg: at a clean cut between two write() calls of a multi-write batch the recovered log receives a batch whose first two sizes are aimed at the bytes missing from the torn batch's straddling record, is restarted, and every batch is judged again; read-fault leg: up to 10 recoveries of the final image with one read failing once (EIO): if open returns a log anyway the same oracle applies; distinct_nontrivial = distinct (case, crash point or damaged frame+kind) inside or on a batch of >= 2 records".into()
+        "case = one focused history (1..2 queues, 4..14 batch appends of 1..64 self-identifying records totalling 16 B .. 3 WAL files, plus frame-commensurate batches of 400..700 records of 169 bytes / 3..5 records of 32749 bytes (12+len divides the 32761-byte frame payload), interleaved truncations of the same queue and, one op in nine, delete_queue + create_queue of the same name so that later batches re-use positions of an earlier incarnation) under Always(Flush); crash leg: every file-system effect boundary and frame-relative byte cuts of every write; damage leg: every frame written by a batch x {payload bit, payload garbage, checksum, length byte, type byte, whole frame zero-filled, empty-frame chain}; evaluation = one recovery (one in three recoveries of a crash inside a batch append is followed by a clean restart with nothing appended, judged again); one history in three opens with a batch whose first records fill the payload of its First frame exactly; oracle over batch boundaries known to the harness: each batch is recovered as nothing, everything, or a hole-free suffix ending at its last record whose missing head is at or below a truncate position issued on that queue; continuation leg: at a clean cut between two write() calls of a multi-write batch the recovered log receives a batch whose first two sizes are aimed at the bytes missing from the torn batch's straddling record, is restarted, and every batch is judged again; read-fault leg: up to 10 recoveries of the final image with one read failing once (EIO): if open returns a log anyway the same oracle applies; distinct_nontrivial = distinct (case, crash point or damaged frame+kind) inside or on a batch of >= 2 records".into()
     }
     fn assumptions(&self) -> Vec<String> {
         vec!["records are >= 16 bytes and carry their (op, index, length) identity, so membership of a recovered record in a batch is unambiguous even where a re-created queue re-uses positions".into()]
@@ -355,13 +376,43 @@ impl Monitor for C12 {
                 let ev = &run.events[i];
                 let mut check = |img: &crate::image::Image, mat: &mut Mat, point: Value, acc: &mut Acc| -> bool {
                     mat.sync(img);
-                    let (r, sut, evs) = recover(&mat.dir, run.policy, run.key);
+                    let (r, mut sut, evs) = recover(&mat.dir, run.policy, run.key);
                     mat.touched_by(&evs);
+                    // one recovery in three of a crash inside a batch append is followed by a
+                    // clean restart with nothing appended in between: what recovery itself wrote
+                    // must not make a part of the torn batch visible later
+                    let mut second: Option<Snapshot> = None;
+                    if is_batch && acc.get("crash_points_inside_batch_append") % 3 == 0 {
+                        if let (Recovered::Ok(_), Some(s)) = (&r, sut.as_mut()) {
+                            let reopened = s.reopen(u64::MAX - 7);
+                            let evs2 = crate::shim::take_events(&mat.dir);
+                            crate::shim::reset();
+                            mat.touched_by(&evs2);
+                            match reopened {
+                                Ok(()) => {
+                                    second = Snapshot::take(s.log()).ok();
+                                    acc.count("second_restarts_after_a_crash_inside_a_batch");
+                                }
+                                Err(_) => {
+                                    acc.count("second_restarts_that_failed_(C02_territory)");
+                                    mat.invalidate_all();
+                                    sut = None;
+                                }
+                            }
+                        }
+                    }
                     finish(sut, mat);
                     acc.eval();
                     acc.count("crash_images_recovered");
                     if is_batch {
                         acc.count("crash_points_inside_batch_append");
+                    }
+                    if let Some(s2) = &second {
+                        let vis: Vec<Batch> = visible.iter().map(|x| Batch { op: x.op, queue: x.queue.clone(), inc: x.inc, first: x.first, hashes: x.hashes.clone() }).collect();
+                        if let Err((what, detail)) = judge(s2, &vis, &trunc) {
+                            acc.violation(format!("C12/crash/after-a-second-restart/{}", what), case, json!({"history": run.history_json(k + 1), "crash_point": point, "observation": detail, "recovered_after_second_restart": s2.to_json(), "note": "recovered once (judged separately), then restarted cleanly with nothing appended"}));
+                            return false;
+                        }
                     }
                     match r {
                         Recovered::Ok(s) => {
